@@ -155,6 +155,16 @@ theorem C04_new_simple_int_meaning (t : RangeTy) (ht : t.isFloat = false) (a b :
       refine ⟨hm, ?_⟩
       rw [hm]; simp; omega
 
+/-- **a specification that parses is never empty**: every `Range` that `Range::new` returns — any
+    type, floats included, any string (`|` lists, open ends, `_`) — contains some count -/
+theorem C04_new_never_empty (t : RangeTy) (s : Str) (r : Range) (h : Ranges.new t s = .ok r) :
+    ∃ n, doMatch r n = true := new_nonempty t s r h
+
+/-- the shape of what the simple case returns: a single value, or bounds that passed the
+    emptiness check (`end ≤ start` for an exclusive end, `end < start` for an inclusive one) -/
+theorem C04_new_simple_shape (t : RangeTy) (s : Str) (r : Range) (h : newSimple t s = .ok r) :
+    (∃ v, r = .exact v) ∨ ∃ lo b, r = .bounds lo b ∧ possible lo b := newSimple_ok_shape t s r h
+
 /-- the split the theorems above rely on: when `.` does not occur before it, the first `..` is
     where `split_once("..")` cuts; with no `.` at all there is no cut -/
 theorem C04_split_once_dotdot (a b : Str) (h : '.' ∉ a) :
@@ -372,10 +382,6 @@ theorem C04_fallback_rules (init : List Range) (last : Range) :
   · rw [checkDe_snoc]
   · simp [checkDe, List.countP_eq_length_filter]
 
-/-- the three checks of the decoder (`InvalidFallback`, `MultipleFallbacks`, `MissingFallback`) -/
-def declAccepted (t : RangeTy) (rs : List Range) : Bool :=
-  !(checkDe rs).1 && !((checkDe rs).2 > 1) && !((checkDe rs).2 == 0 && t.isFloat)
-
 /-- an accepted non-empty declaration has no fallback anywhere but in last position, hence at most
     one; a float declaration ends with the fallback, so every count is rendered by some branch -/
 theorem C04_accepted_fallback_last (t : RangeTy) (rs : List Range) (hne : rs ≠ [])
@@ -415,6 +421,19 @@ theorem C04_float_total (t : RangeTy) (bs : List (Range × PV)) (hne : bs ≠ []
   obtain ⟨x, hx, hx'⟩ := List.mem_map.mp hl
   refine ⟨x, hx, ?_⟩
   rw [hx', h4 ht]; simp [doMatch]
+
+/-- **through the decoder**: whatever array the file contains (either syntax, any nesting budget),
+    if `ParsedValueSeed` accepts it the result is a range value with at least one branch whose
+    specifications pass the three checks `InvalidFallback`, `MultipleFallbacks`, `MissingFallback`
+    (`declAccepted`), hence `C04_accepted_fallback_last` / `C04_float_total` apply to it -/
+theorem C04_decoded_declaration (fuel : Nat) (top key : Str) (l : List J) (pv : PV)
+    (h : Decode.value (fuel + 1) top false key (.arr l) = .ok pv) :
+    ∃ t bs, pv = .ranges "var_count".toList t bs ∧ bs ≠ [] ∧ declAccepted t (bs.map (·.1)) = true ∧
+      ∃ init last, bs.map (·.1) = init ++ [last] ∧ (∀ r ∈ init, containsFallback r = false) ∧
+        (t.isFloat = true → last = .fallback) := by
+  obtain ⟨t, bs, h1, h2, h3⟩ := value_arr_ok fuel top key l pv h
+  obtain ⟨init, last, e1, e2, _, e4⟩ := C04_accepted_fallback_last t (bs.map (·.1)) (by simpa using h2) h3
+  exact ⟨t, bs, h1, h2, h3, init, last, e1, e2, e4⟩
 
 /-! ## 7. `flatten` -/
 
@@ -496,4 +515,7 @@ example : countFor .u8 (.signed (-1)) = some (.err "CountArgOutsideRange") ∧
     countFor .u8 (.unsigned 255) = some (.ok ⟨255, 0⟩) ∧ countFor .f32 (.unsigned 1) = some (.err "InvalidCountArgType") :=
   ⟨rfl, rfl, rfl⟩
 
+/-- list syntax: the first count is moved last (`C04_range_seq`) -/
+example : rangeSpec.rangeSeq .i8 [.unsigned 1, .str "3..5".toList, .unsigned 7]
+    = .ok (.multi [.bounds (some ⟨3, 0⟩) (.incl ⟨4, 0⟩), .exact ⟨7, 0⟩, .exact ⟨1, 0⟩]) := by rfl
 end I18nVerif.Ranges
